@@ -295,3 +295,22 @@ package gtab
 //@     invariant buf[1] == 2 && be16(buf, 4) == n && be16(buf, 2) == covOffs
 //@     invariant forall k int :: 0 <= k && k < i ==> be16(buf, 6 + 2*k) == l.SubstituteGlyphIDs[k]
 //@     decreases n - i
+
+// readFeatureList: total on arbitrary bytes (no panic, every loop terminates,
+// allocation bounded by the 16-bit counts), reader faults are returned.
+//@ func readFeatureList(p *parser.Parser, pos int64) (info FeatureListInfo, err error)   props: C02 C08 C18
+//@   requires parser.inv(p) && pos >= 0 && pos <= 4611686018427387904
+//@   ensures faults(p.r) > old(faults(p.r)) ==> err != nil
+//@   ensures err == nil ==> forall i int :: 0 <= i && i < len(info) ==> info[i] != nil
+//@   loop 0
+//@     invariant parser.inv(p) && 0 <= i && i <= featureCount && len(featureList) == i && (isnil(featureList) || fresh(featureList)) && faults(p.r) <= old(faults(p.r)) && pos >= 0 && pos <= 4611686018427387904
+//@     invariant forall k int :: 0 <= k && k < len(featureList) ==> featureList[k] != nil
+//@     decreases featureCount - i
+//@   loop 1
+//@     invariant parser.inv(p) && (isnil(info) || fresh(info)) && faults(p.r) <= old(faults(p.r)) && pos >= 0 && pos <= 4611686018427387904 && totalSize >= 0
+//@     invariant forall k int :: 0 <= k && k < len(featureList) ==> featureList[k] != nil
+//@     invariant forall k int :: 0 <= k && k < len(info) ==> info[k] != nil
+//@   loop 2
+//@     invariant parser.inv(p) && 0 <= i && i <= featureLookupCount && (isnil(lookupListIndices) || fresh(lookupListIndices)) && faults(p.r) <= old(faults(p.r))
+//@     invariant forall k int :: 0 <= k && k < len(info) ==> info[k] != nil
+//@     decreases featureLookupCount - i
